@@ -21,6 +21,9 @@ pub struct Case {
     pub threads: u8,
     /// sort keys of a sample permutation
     pub perm: Vec<u16>,
+    /// one sample without any split k-mer left (a control weeded with its own sequence): it still counts as a sample
+    #[serde(default)]
+    pub empty: Option<u16>,
 }
 
 fn case_strategy() -> BoxedStrategy<Case> {
@@ -34,8 +37,9 @@ fn case_strategy() -> BoxedStrategy<Case> {
         any::<bool>(),
         prop::sample::select(vec![1u8, 1, 2, 3, 4, 8]),
         proptest::collection::vec(any::<u16>(), 2..6),
+        prop_oneof![4 => Just(None), 1 => any::<u16>().prop_map(Some)],
     )
-        .prop_map(|(t, dup, freq, allow_ambiguous, threads, perm)| Case { t, dup, freq, allow_ambiguous, threads, perm })
+        .prop_map(|(t, dup, freq, allow_ambiguous, threads, perm, empty)| Case { t, dup, freq, allow_ambiguous, threads, perm, empty })
         .boxed()
 }
 
@@ -47,6 +51,16 @@ pub fn case_table(c: &Case) -> Table {
         if a != b {
             for r in t.rows.values_mut() {
                 r[b] = r[a];
+            }
+            t.rows.retain(|_, r| r.iter().any(|x| *x != b'-'));
+        }
+    }
+    if let Some(e) = c.empty {
+        let n = t.nsamples();
+        if n >= 3 {
+            let e = gen::idx(e, n);
+            for r in t.rows.values_mut() {
+                r[e] = b'-';
             }
             t.rows.retain(|_, r| r.iter().any(|x| *x != b'-'));
         }
@@ -240,6 +254,7 @@ fn check(c: &Case, ctx: &Ctx, via_cli: bool) -> Outcome {
             });
             if both { cl.push("pair_with_snp_and_mismatch"); }
             if exp.iter().any(|l| l.ends_with("\t0.00\t0.00000")) { cl.push("identical_pair"); }
+            if n >= 3 && !t.rows.is_empty() && (0..n).any(|j| t.rows.values().all(|r| r[j] == b'-')) { cl.push("sample_without_any_kmer"); }
             if c.allow_ambiguous { cl.push("allow_ambiguous"); }
             if c.threads > 1 && via_cli { cl.push("threads>1"); }
             pass(f9 || both, key_of(&(k, &c.freq, c.allow_ambiguous, &t.names, t.rows.values().collect::<Vec<_>>())), cl)
